@@ -527,10 +527,21 @@ impl LazySeq {
         drop(state);
 
         if let Some(gen) = genfn {
-            let obj = gen.call0(py)?;
-            let mut state = mutex.borrow_mut();
-            *state = LazySeqState::Computed(obj.clone_ref(py));
-            Ok(obj.clone_ref(py))
+            match gen.call0(py) {
+                Ok(obj) => {
+                    let mut state = mutex.borrow_mut();
+                    *state = LazySeqState::Computed(obj.clone_ref(py));
+                    Ok(obj.clone_ref(py))
+                }
+                Err(e) => {
+                    // Restore the generator so the error propagates to this caller and
+                    // a later caller computes the seq again. Leaving the state as
+                    // Computing would make the seq silently appear empty afterwards.
+                    let mut state = mutex.borrow_mut();
+                    *state = LazySeqState::Initialized(gen);
+                    Err(e)
+                }
+            }
         } else {
             panic!("Expected a reference to a generator function!");
         }
